@@ -24,12 +24,13 @@ EXPLANATION = (
     'documented one (hence equal to NumPy\'s, which C02 proves), that the energy / power / log-floor / doubling dataflow '
     'gives equal terms, and that the output shapes agree, including N < L//2+1 (zero rows, same number of columns). '
     'Wrappers: dataflow with stub objects (input handed to the NumPy object, result re-wrapped with device and dtype).')
-BOUNDS = {'quick': 'framing: (L,S) grid of C02 x 3 styles, N <= 3L; pairing: D in 2..17, 32, 64, any start/len; flags: all combinations (symbolic); parameter transfer: all flag combinations x padded / unpadded DFT size; NumPy-backed wrappers: tensor of symbolic extents (rows, cols >= 0)',
+BOUNDS = {'quick': 'framing: (L,S) grid of C02 x 3 styles plus causal+kaldi_shift at (5,2) (7,3) and frame shifts beyond twice the frame length (2,6) (3,7), N <= 3L; pairing: D in 2..17, 32, 64, any start/len; flags: all combinations (symbolic); parameter transfer: all flag combinations x padded / unpadded DFT size; NumPy-backed wrappers: tensor of symbolic extents (rows, cols >= 0)',
           'thorough': 'pairing D in 2..40 and {64,127,128,255,256,512}; framing L<=9, N<=4L'}
 OUTSIDE = ['signal lengths with frame_length//2+1 <= N < frame_length (not covered by the property; the torch port raises there when the padding exceeds the signal)', 'TorchScript compilation (compiler out of reach)', 'float32 working precision', 'statistics of PyTorchDither noise',
            'numerical FFT; PyTorchPreemphasize / PyTorchDither functional forms are decided in C18']
 ASSUMPTIONS = ['torch.cat/flip/as_strided/stack/rfft index semantics as modelled by the shim (validated against real torch in conformance)',
-               'torch.linalg.norm(x, 2, 1) = sqrt(sum |x|^2) along dim 1']
+               'torch.linalg.norm(x, 2, 1) = sqrt(sum |x|^2) along dim 1',
+               'torch.fft.rfft rejects a batch of zero transforms (RuntimeError from the CPU FFT back end of the installed torch): a path that reaches it with no frame is a violation candidate and is replayed on real torch']
 CONFIG_TIME_LIMIT = {'quick': 600, 'thorough': 3000}
 R = z3.RealSort()
 
